@@ -63,6 +63,9 @@ def run_property(prop, tier):
     if not prep['ok']:
         broken.append('prepare:' + prep['stage'])
     else:
+        if prep.get('translator'):
+            # a function left the translatable subset (or vanished): the regenerated tie cannot be established
+            broken.append('translator:' + prep['translator'].strip().split('\n')[0][:200])
         obl = obligations(prop, tier, log)
         if not obl['ok']:
             broken += ['theorem:' + n for n in obl.get('failed', [])] or ['theorem-build:' + prop]
